@@ -216,7 +216,7 @@ PROPS = {
                 "delegated file), Apply, Discard, set refs/gittuf/policy or policy-staging directly to an earlier staged commit. After "
                 "every operation: error, both refs, the policy/staging entries of the log (independent walker) and whether "
                 "LoadCurrentState(policy) succeeds. non-trivial = >=4 operations",
-        "theorems": ["C12_apply", "C12_refused", "C12_discard"],
+        "theorems": ["C12_apply", "C12_refused", "C12_discard", "C12_published_always_loadable"],
         "trusted": [
             "sequences in which staging diverges from policy (ReconcileStaging rewrites history) are skipped and counted",
             "the experimental/gittuf API guard (non-root signers refused) is not exercised",
